@@ -431,7 +431,7 @@ func (x *Exec) zero(st *State, t types.Type) Value {
 	case *types.Signature:
 		return VOpaque{Typ: t, Name: "nilfunc"}
 	case *types.Chan:
-		return VOpaque{Typ: t, Name: "nilchan"}
+		return VChan{Nil: TTrue, Obj: -1, Typ: t}
 	}
 	return VOpaque{Typ: t, Name: "zero"}
 }
@@ -523,6 +523,11 @@ func (x *Exec) symbolic(st *State, t types.Type, name string) Value {
 		nilT := x.sym.Named(name+".isnil", SBool)
 		id := x.sym.Named(name+".id", SErr)
 		return VIface{Nil: nilT, Id: id, Typ: t}
+	case *types.Chan:
+		// an input channel: possibly nil, possibly closed, identity symbolic (it may be the same channel as another input)
+		nilT := x.sym.Named(name+".isnil", SBool)
+		obj := x.alloc(st, &ChanObj{Typ: t, Cap: x.sym.Named(name+".cap", SInt), Closed: x.sym.Named(name+".closed", SBool), Name: name})
+		return VChan{Nil: nilT, Obj: obj, Typ: t, Id: x.sym.Named(name+".id", SErr)}
 	}
 	return VOpaque{Typ: t, Name: name}
 }
